@@ -1,7 +1,566 @@
 /-
-  Property C13 — theorems about QEModel.C13 (stub; to be filled in).
+  Property C13 — AR(1) discretisations and chain estimation: theorems about QEModel.C13.
+
+  Rouwenhorst: the recursion `row_build_mat` (as written, with the halving of interior rows)
+  gives, for every n ≥ 2 and all p, q, a matrix whose row i is the law of a sum of n-1-i
+  Bernoulli(1-p) and i Bernoulli(q) variables; consequences: rows sum to 1, entries are
+  non-negative for p, q ∈ [0,1], conditional mean and variance on the code's grid are those of
+  the AR(1).  Tauchen: for every Φ the rows telescope to 1 on an evenly spaced grid.
+  estimate_mc: exact counting.
 -/
 import QEModel.C13
+import QEProofs.Lemmas.C13Rouw
+import QEProofs.Lemmas.C13Grid
+import QEProofs.Lemmas.C13Tauchen
+import QEProofs.Lemmas.C13Est
+import QEProofs.Lemmas.C13Poly
+import QEProofs.Lemmas.C13Fit
 namespace QE.C13
+open QE Finset
+
+/-! ## Rouwenhorst: the matrix -/
+
+section rouw
+variable {K : Type} [Field K] [LinearOrder K] [IsStrictOrderedRing K]
+
+omit [LinearOrder K] [IsStrictOrderedRing K] in
+/-- `row_build_mat(n, p, q)` raises exactly for `n < 2`. -/
+theorem rowBuildMat_none_iff (n : ℕ) (p q : K) : rowBuildMat n p q = none ↔ n < 2 := by
+  unfold rowBuildMat; split <;> simp_all
+
+/-- **Generating function of every row** (all `n ≥ 2`, all `p, q, x`):
+    `Σ_j Θ[i,j] x^j = (p + (1-p)x)^(n-1-i) (1-q+qx)^i`. -/
+theorem rouwenhorst_row_genfun (n : ℕ) (p q x : K) (T : M K) (hT : rowBuildMat n p q = some T)
+    (i : ℕ) (hi : i < n) :
+    ∑ j ∈ range n, T.get i j * x ^ j = (p + (1 - p) * x) ^ (n - 1 - i) * (1 - q + q * x) ^ i := by
+  unfold rowBuildMat at hT
+  split at hT
+  · simp at hT
+  · obtain ⟨m, rfl⟩ : ∃ m, n = m + 2 := ⟨n - 2, by omega⟩
+    simp only [Option.some.injEq, Nat.add_sub_cancel] at hT
+    subst hT
+    have h := rowE_genfun p q x m i hi
+    have e : m + 2 - 1 - i = m + 1 - i := by omega
+    rw [e]; exact h
+
+/-- **Rows sum to one** (all `n ≥ 2`, all `p`, `q`). -/
+theorem rouwenhorst_row_sums (n : ℕ) (p q : K) (T : M K) (hT : rowBuildMat n p q = some T)
+    (i : ℕ) (hi : i < n) : ∑ j ∈ range n, T.get i j = 1 := by
+  have h := rouwenhorst_row_genfun n p q 1 T hT i hi
+  simpa using h
+
+/-- **Conditional mean of the index**: `Σ_j Θ[i,j]·j = (n-1)(1-p) + i(p+q-1)`. -/
+theorem rouwenhorst_cond_mean_index (n : ℕ) (p q : K) (T : M K) (hT : rowBuildMat n p q = some T)
+    (i : ℕ) (hi : i < n) :
+    ∑ j ∈ range n, T.get i j * (j : K) = ((n : K) - 1) * (1 - p) + (i : K) * (p + q - 1) := by
+  unfold rowBuildMat at hT
+  split at hT
+  · simp at hT
+  · obtain ⟨m, rfl⟩ : ∃ m, n = m + 2 := ⟨n - 2, by omega⟩
+    simp only [Option.some.injEq, Nat.add_sub_cancel] at hT
+    subst hT
+    have h := rowE_id p q m i hi
+    unfold rowE rowExp at h
+    rw [h]; push_cast; ring
+
+/-- **Conditional variance of the index**: `(n-1-i) p(1-p) + i q(1-q)`. -/
+theorem rouwenhorst_cond_var_index (n : ℕ) (p q : K) (T : M K) (hT : rowBuildMat n p q = some T)
+    (i : ℕ) (hi : i < n) :
+    ∑ j ∈ range n, T.get i j * ((j : K) - (((n : K) - 1) * (1 - p) + (i : K) * (p + q - 1))) ^ 2
+      = ((n : K) - 1 - i) * (p * (1 - p)) + (i : K) * (q * (1 - q)) := by
+  unfold rowBuildMat at hT
+  split at hT
+  · simp at hT
+  · obtain ⟨m, rfl⟩ : ∃ m, n = m + 2 := ⟨n - 2, by omega⟩
+    simp only [Option.some.injEq, Nat.add_sub_cancel] at hT
+    subst hT
+    have h0 := rowE_one p q m i hi
+    have h1 := rowE_id p q m i hi
+    have h2 := rowE_sq p q m i hi
+    unfold rowE rowExp at h0 h1 h2
+    set c : K := (((m + 2 : ℕ) : K) - 1) * (1 - p) + (i : K) * (p + q - 1) with hc
+    have e : ∀ j : ℕ, (rouwMat p q m).get i j * ((j : K) - c) ^ 2
+        = (rouwMat p q m).get i j * (j : K) ^ 2 - 2 * c * ((rouwMat p q m).get i j * (j : K))
+          + c ^ 2 * ((rouwMat p q m).get i j * 1) := by intro j; ring
+    simp only [e, sum_add_distrib, sum_sub_distrib, ← mul_sum]
+    rw [h0, h1, h2, hc]; push_cast; ring
+
+/-- **Non-negativity** for `p, q ∈ [0,1]` (all `n ≥ 2`). -/
+theorem rouwenhorst_nonneg (n : ℕ) (p q : K) (hp0 : 0 ≤ p) (hp1 : p ≤ 1) (hq0 : 0 ≤ q) (hq1 : q ≤ 1)
+    (T : M K) (hT : rowBuildMat n p q = some T) (i j : ℕ) (hi : i < n) (hj : j < n) :
+    0 ≤ T.get i j := by
+  unfold rowBuildMat at hT
+  split at hT
+  · simp at hT
+  · obtain ⟨m, rfl⟩ : ∃ m, n = m + 2 := ⟨n - 2, by omega⟩
+    simp only [Option.some.injEq, Nat.add_sub_cancel] at hT
+    subst hT
+    exact rouwMat_nonneg p q hp0 hp1 hq0 hq1 m i j hi hj
+
+/-- non-vacuity: `row_build_mat(3, 1/3, 3/4)` exists, rows sum to one, middle row is halved -/
+example : ∃ T : M ℚ, rowBuildMat 3 (1/3 : ℚ) (3/4) = some T ∧ T.get 1 1 = 5/12 ∧
+    T.get 1 0 + T.get 1 1 + T.get 1 2 = 1 := by
+  refine ⟨rouwMat (1/3) (3/4) 1, rfl, ?_, ?_⟩
+  · rw [rouwMat_get_succ _ _ 0 1 1 (by omega) (by omega)]
+    unfold rouwStepFn
+    simp [rouwMat_get_zero, rouwBaseFn]; norm_num
+  · rw [rouwMat_get_succ _ _ 0 1 0 (by omega) (by omega), rouwMat_get_succ _ _ 0 1 1 (by omega) (by omega),
+      rouwMat_get_succ _ _ 0 1 2 (by omega) (by omega)]
+    unfold rouwStepFn
+    simp [rouwMat_get_zero, rouwBaseFn]; norm_num
+
+/-! ## Rouwenhorst: conditional moments on the code's grid -/
+
+omit [IsStrictOrderedRing K] in
+/-- `rouwenhorst` returns the matrix of `row_build_mat(n, (1+ρ)/2, (1+ρ)/2)` and the grid -/
+theorem rouwenhorst_eq (sqrt : K → K) (n : ℕ) (rho sigma mu : K) (T : M K) (g : List K)
+    (h : rouwenhorst sqrt n rho sigma mu = some (T, g)) :
+    rowBuildMat n ((1 + rho) / 2) ((1 + rho) / 2) = some T ∧ g = rouwGrid sqrt n rho sigma mu := by
+  unfold rouwenhorst at h
+  have h2 : ((1 : K) + 1) = 2 := by norm_num
+  simp only [h2] at h
+  split at h
+  · simp at h
+  · rename_i th hth
+    simp only [Option.some.injEq, Prod.mk.injEq] at h
+    rw [hth, h.1]; exact ⟨rfl, h.2.symm⟩
+
+/-- **Valid stochastic matrix** for every `n ≥ 2` and every `ρ ∈ [-1, 1]` (rows sum to one for
+    every `ρ`). -/
+theorem rouwenhorst_stochastic (sqrt : K → K) (n : ℕ) (rho sigma mu : K) (h1 : -1 ≤ rho) (h2 : rho ≤ 1)
+    (T : M K) (g : List K) (h : rouwenhorst sqrt n rho sigma mu = some (T, g)) (i : ℕ) (hi : i < n) :
+    ∑ j ∈ range n, T.get i j = 1 ∧ ∀ j, j < n → 0 ≤ T.get i j := by
+  obtain ⟨hT, _⟩ := rouwenhorst_eq sqrt n rho sigma mu T g h
+  refine ⟨rouwenhorst_row_sums n _ _ T hT i hi, fun j hj => ?_⟩
+  have hp0 : 0 ≤ (1 + rho) / 2 := by linarith
+  have hp1 : (1 + rho) / 2 ≤ 1 := by linarith
+  exact rouwenhorst_nonneg n _ _ hp0 hp1 hp0 hp1 T hT i j hi hj
+
+/-- **Conditional mean is that of the AR(1)** at every grid point, for every `n ≥ 2`, every
+    `ρ ≠ 1`, and *whatever* the external `sqrt` returns: `E[y' | y_i] = μ + ρ y_i`. -/
+theorem rouwenhorst_cond_mean (sqrt : K → K) (n : ℕ) (rho sigma mu : K) (hrho : rho ≠ 1)
+    (T : M K) (g : List K) (h : rouwenhorst sqrt n rho sigma mu = some (T, g)) (i : ℕ) (hi : i < n) :
+    ∑ j ∈ range n, T.get i j * g.getD j 0 = mu + rho * g.getD i 0 := by
+  obtain ⟨hT, rfl⟩ := rouwenhorst_eq sqrt n rho sigma mu T g h
+  have hn : 2 ≤ n := by
+    by_contra hc
+    rw [(rowBuildMat_none_iff n _ _).mpr (by omega)] at hT; simp at hT
+  have h0 := rouwenhorst_row_sums n _ _ T hT i hi
+  have h1 := rouwenhorst_cond_mean_index n _ _ T hT i hi
+  set ψ : K := ySd sqrt rho sigma * sqrt (((n - 1 : ℕ)) : K) with hψ
+  have hne : (n : K) - 1 ≠ 0 := by
+    have : (2 : K) ≤ (n : K) := by exact_mod_cast hn
+    intro h0; linarith
+  have hr : 1 - rho ≠ 0 := fun h => hrho (by linarith)
+  have e : ∀ j ∈ range n, T.get i j * (rouwGrid sqrt n rho sigma mu).getD j 0
+      = (-ψ + mu / (1 - rho)) * T.get i j + ((ψ - -ψ) / ((n : K) - 1)) * (T.get i j * (j : K)) := by
+    intro j hj
+    rw [rouwGrid_getD sqrt n hn rho sigma mu j (mem_range.mp hj)]
+    ring
+  rw [sum_congr rfl e, sum_add_distrib, ← mul_sum, ← mul_sum, h0, h1,
+    rouwGrid_getD sqrt n hn rho sigma mu i hi]
+  field_simp
+  ring
+
+/-- **Conditional variance is `σ²`** at every grid point, given that the external `sqrt`
+    returned exact square roots of its two arguments `σ²/(1-ρ²)` and `n-1`. -/
+theorem rouwenhorst_cond_var (sqrt : K → K) (n : ℕ) (rho sigma mu : K) (hrho : rho ≠ 1)
+    (hrho2 : 1 - rho * rho ≠ 0)
+    (hs1 : ySd sqrt rho sigma * ySd sqrt rho sigma = sigma * sigma / (1 - rho * rho))
+    (hs2 : sqrt (((n - 1 : ℕ)) : K) * sqrt (((n - 1 : ℕ)) : K) = (((n - 1 : ℕ)) : K))
+    (T : M K) (g : List K) (h : rouwenhorst sqrt n rho sigma mu = some (T, g)) (i : ℕ) (hi : i < n) :
+    ∑ j ∈ range n, T.get i j * (g.getD j 0 - (mu + rho * g.getD i 0)) ^ 2 = sigma * sigma := by
+  obtain ⟨hT, rfl⟩ := rouwenhorst_eq sqrt n rho sigma mu T g h
+  have hn : 2 ≤ n := by
+    by_contra hc
+    rw [(rowBuildMat_none_iff n _ _).mpr (by omega)] at hT; simp at hT
+  have h2 := rouwenhorst_cond_var_index n _ _ T hT i hi
+  have hc : (((n - 1 : ℕ)) : K) = (n : K) - 1 := by
+    rw [Nat.cast_sub (by omega)]; simp
+  set ψ : K := ySd sqrt rho sigma * sqrt (((n - 1 : ℕ)) : K) with hψ
+  have hψ2 : ψ * ψ = sigma * sigma / (1 - rho * rho) * ((n : K) - 1) := by
+    rw [← hc, ← hs1, ← hs2, hψ]; ring
+  have hne : (n : K) - 1 ≠ 0 := by
+    have : (2 : K) ≤ (n : K) := by exact_mod_cast hn
+    intro h0; linarith
+  have hr : 1 - rho ≠ 0 := fun h => hrho (by linarith)
+  have e : ∀ j ∈ range n, T.get i j * ((rouwGrid sqrt n rho sigma mu).getD j 0
+        - (mu + rho * (rouwGrid sqrt n rho sigma mu).getD i 0)) ^ 2
+      = ((ψ - -ψ) / ((n : K) - 1)) ^ 2 * (T.get i j * ((j : K) - (((n : K) - 1) * (1 - (1 + rho) / 2)
+          + (i : K) * ((1 + rho) / 2 + (1 + rho) / 2 - 1))) ^ 2) := by
+    intro j hj
+    rw [rouwGrid_getD sqrt n hn rho sigma mu j (mem_range.mp hj),
+      rouwGrid_getD sqrt n hn rho sigma mu i hi]
+    field_simp
+    ring
+  rw [sum_congr rfl e, ← mul_sum, h2]
+  have hfin : ((ψ - -ψ) / ((n : K) - 1)) ^ 2 * (((n : K) - 1 - i) * ((1 + rho) / 2 * (1 - (1 + rho) / 2))
+      + (i : K) * ((1 + rho) / 2 * (1 - (1 + rho) / 2)))
+      = (ψ * ψ) * (1 - rho * rho) / ((n : K) - 1) := by
+    field_simp
+    ring
+  have hrho2' : 1 - rho ^ 2 ≠ 0 := by rwa [pow_two]
+  rw [hfin, hψ2]
+  field_simp
+
+/-- **Grid**: `n` evenly spaced points `μ/(1-ρ) - ψ + 2ψ j/(n-1)` whose half width satisfies
+    `ψ² = σ²(n-1)/(1-ρ²)` when the two external square roots are exact. -/
+theorem rouwenhorst_grid (sqrt : K → K) (n : ℕ) (hn : 2 ≤ n) (rho sigma mu : K)
+    (hs1 : ySd sqrt rho sigma * ySd sqrt rho sigma = sigma * sigma / (1 - rho * rho))
+    (hs2 : sqrt (((n - 1 : ℕ)) : K) * sqrt (((n - 1 : ℕ)) : K) = (((n - 1 : ℕ)) : K)) :
+    ∃ ψ : K, ψ * ψ = sigma * sigma * ((n : K) - 1) / (1 - rho * rho) ∧
+      ∀ j, j < n → (rouwGrid sqrt n rho sigma mu).getD j 0
+        = mu / (1 - rho) - ψ + 2 * ψ * (j : K) / ((n : K) - 1) := by
+  have hc : (((n - 1 : ℕ)) : K) = (n : K) - 1 := by
+    rw [Nat.cast_sub (by omega)]; simp
+  refine ⟨ySd sqrt rho sigma * sqrt (((n - 1 : ℕ)) : K), ?_, ?_⟩
+  · have : ySd sqrt rho sigma * sqrt (((n - 1 : ℕ)) : K) * (ySd sqrt rho sigma * sqrt (((n - 1 : ℕ)) : K))
+        = (ySd sqrt rho sigma * ySd sqrt rho sigma) * (sqrt (((n - 1 : ℕ)) : K) * sqrt (((n - 1 : ℕ)) : K)) := by ring
+    rw [this, hs1, hs2, hc]; ring
+  · intro j hj
+    rw [rouwGrid_getD sqrt n hn rho sigma mu j hj]
+    ring
+
+/-! ## Rouwenhorst: stationary law and unconditional variance -/
+
+/-- **Binomial(n-1, 1/2) is stationary** whenever `p = q` (so for every `ρ`), all `n ≥ 2`:
+    `Σ_i π_i Θ[i,j] = π_j` with `π_i = C(n-1,i)/2^(n-1)`. -/
+theorem rouwenhorst_stationary (n : ℕ) (p : K) (T : M K) (hT : rowBuildMat n p p = some T)
+    (j : ℕ) (hj : j < n) :
+    ∑ i ∈ range n, ((Nat.choose (n - 1) i : K) / 2 ^ (n - 1)) * T.get i j
+      = (Nat.choose (n - 1) j : K) / 2 ^ (n - 1) := by
+  unfold rowBuildMat at hT
+  split at hT
+  · simp at hT
+  · obtain ⟨m, rfl⟩ : ∃ m, n = m + 2 := ⟨n - 2, by omega⟩
+    simp only [Option.some.injEq, Nat.add_sub_cancel] at hT
+    subst hT
+    exact rouwMat_stationary p m j hj
+
+/-- **Unconditional mean and variance** of the chain under its stationary law on the code's
+    grid: mean `μ/(1-ρ)` (whatever `sqrt` returns) and variance `σ²/(1-ρ²)` (given exact roots). -/
+theorem rouwenhorst_uncond_moments (sqrt : K → K) (n : ℕ) (hn : 2 ≤ n) (rho sigma mu : K)
+    (hs1 : ySd sqrt rho sigma * ySd sqrt rho sigma = sigma * sigma / (1 - rho * rho))
+    (hs2 : sqrt (((n - 1 : ℕ)) : K) * sqrt (((n - 1 : ℕ)) : K) = (((n - 1 : ℕ)) : K)) :
+    let g := rouwGrid sqrt n rho sigma mu
+    let π := fun j : ℕ => (Nat.choose (n - 1) j : K) / 2 ^ (n - 1)
+    ∑ j ∈ range n, π j * g.getD j 0 = mu / (1 - rho) ∧
+    ∑ j ∈ range n, π j * (g.getD j 0 - mu / (1 - rho)) ^ 2 = sigma * sigma / (1 - rho * rho) := by
+  intro g π
+  obtain ⟨m, rfl⟩ : ∃ m, n = m + 2 := ⟨n - 2, by omega⟩
+  have hT : rowBuildMat (m + 2) (1 / 2 : K) (1 / 2) = some (rouwMat (1 / 2) (1 / 2) m) := by
+    unfold rowBuildMat; simp
+  have h0 := rouwenhorst_row_sums (m + 2) _ _ _ hT 0 (by omega)
+  have h1 := rouwenhorst_cond_mean_index (m + 2) _ _ _ hT 0 (by omega)
+  have h2 := rouwenhorst_cond_var_index (m + 2) _ _ _ hT 0 (by omega)
+  have hπ : ∀ j ∈ range (m + 2), π j = (rouwMat (1 / 2 : K) (1 / 2) m).get 0 j := by
+    intro j hj
+    exact binom_eq_row m 0 j (by omega) (mem_range.mp hj)
+  have hc : (((m + 2 - 1 : ℕ)) : K) = ((m + 2 : ℕ) : K) - 1 := by
+    rw [Nat.cast_sub (by omega)]; simp
+  set ψ : K := ySd sqrt rho sigma * sqrt (((m + 2 - 1 : ℕ)) : K) with hψ
+  have hψ2 : ψ * ψ = sigma * sigma / (1 - rho * rho) * (((m + 2 : ℕ) : K) - 1) := by
+    rw [← hc, ← hs1, ← hs2, hψ]; ring
+  have hne : ((m + 2 : ℕ) : K) - 1 ≠ 0 := by
+    have : (2 : K) ≤ ((m + 2 : ℕ) : K) := by exact_mod_cast hn
+    intro h0; linarith
+  constructor
+  · have e : ∀ j ∈ range (m + 2), π j * g.getD j 0
+        = (-ψ + mu / (1 - rho)) * (rouwMat (1 / 2 : K) (1 / 2) m).get 0 j
+          + ((ψ - -ψ) / (((m + 2 : ℕ) : K) - 1)) * ((rouwMat (1 / 2 : K) (1 / 2) m).get 0 j * (j : K)) := by
+      intro j hj
+      rw [hπ j hj, rouwGrid_getD sqrt (m + 2) hn rho sigma mu j (mem_range.mp hj)]
+      ring
+    rw [sum_congr rfl e, sum_add_distrib, ← mul_sum, ← mul_sum, h0, h1]
+    field_simp
+    ring
+  · have e : ∀ j ∈ range (m + 2), π j * (g.getD j 0 - mu / (1 - rho)) ^ 2
+        = ((ψ - -ψ) / (((m + 2 : ℕ) : K) - 1)) ^ 2 * ((rouwMat (1 / 2 : K) (1 / 2) m).get 0 j
+            * ((j : K) - ((((m + 2 : ℕ) : K) - 1) * (1 - 1 / 2) + ((0 : ℕ) : K) * (1 / 2 + 1 / 2 - 1))) ^ 2) := by
+      intro j hj
+      rw [hπ j hj, rouwGrid_getD sqrt (m + 2) hn rho sigma mu j (mem_range.mp hj)]
+      field_simp
+      ring
+    rw [sum_congr rfl e, ← mul_sum, h2]
+    have hfin : ((ψ - -ψ) / (((m + 2 : ℕ) : K) - 1)) ^ 2 * ((((m + 2 : ℕ) : K) - 1 - ((0 : ℕ) : K)) * (1 / 2 * (1 - 1 / 2))
+        + ((0 : ℕ) : K) * (1 / 2 * (1 - 1 / 2)))
+        = (ψ * ψ) / (((m + 2 : ℕ) : K) - 1) := by
+      field_simp
+      ring
+    rw [hfin, hψ2]
+    field_simp
+
+/-- non-vacuity of the hypotheses of `rouwenhorst_cond_var` / `rouwenhorst_cond_mean`:
+    `ρ = 3/5`, `σ = 4/5` (so `σ²/(1-ρ²) = 1`), `n = 5` (so `n-1 = 4`), `μ = 1`, with a `sqrt`
+    that is exact on these two arguments -/
+example : (3/5 : ℚ) ≠ 1 ∧ 1 - (3/5 : ℚ) * (3/5) ≠ 0 ∧
+    ySd (fun a : ℚ => if a = 1 then 1 else 2) (3/5) (4/5) * ySd (fun a : ℚ => if a = 1 then 1 else 2) (3/5) (4/5)
+      = (4/5) * (4/5) / (1 - (3/5) * (3/5)) ∧
+    (fun a : ℚ => if a = 1 then 1 else 2) (((5 - 1 : ℕ)) : ℚ) * (fun a : ℚ => if a = 1 then 1 else 2) (((5 - 1 : ℕ)) : ℚ)
+      = (((5 - 1 : ℕ)) : ℚ) ∧
+    (rouwenhorst (fun a : ℚ => if a = 1 then 1 else 2) 5 (3/5) (4/5) 1).isSome = true := by
+  decide +kernel
+
+end rouw
+
+/-! ## Tauchen -/
+
+section tauchen
+variable {K : Type} [Field K] [LinearOrder K] [IsStrictOrderedRing K]
+
+omit [IsStrictOrderedRing K] in
+theorem tauchen_fst (sqrt erfc : K → K) (n : ℕ) (rho sigma mu : K) (nstd : ℕ) :
+    (tauchen sqrt erfc n rho sigma mu nstd).1 =
+      fillTauchen (stdNormCdf erfc (sqrt (1 + 1))) (tauchenX sqrt n rho sigma nstd).1 n rho sigma
+        (tauchenX sqrt n rho sigma nstd).2 := rfl
+
+omit [IsStrictOrderedRing K] in
+theorem tauchen_snd (sqrt erfc : K → K) (n : ℕ) (rho sigma mu : K) (nstd : ℕ) :
+    (tauchen sqrt erfc n rho sigma mu nstd).2 =
+      (tauchenX sqrt n rho sigma nstd).1.map (· + mu / (1 - rho)) := rfl
+
+omit [IsStrictOrderedRing K] in
+/-- **Entry = Φ-mass of the cell, end cells open** (`Φ = std_norm_cdf`, `h` the half step,
+    `x` the demeaned grid): column 0 is `Φ((x₀ - ρxᵢ + h)/σ)`, column `n-1` is
+    `1 - Φ((x_{n-1} - ρxᵢ - h)/σ)`, interior columns the difference of the two. -/
+theorem tauchen_entry (sqrt erfc : K → K) (n : ℕ) (rho sigma mu : K) (nstd : ℕ) (i j : ℕ)
+    (hi : i < n) (hj : j < n) :
+    let Φ := stdNormCdf erfc (sqrt (1 + 1))
+    let x := (tauchenX sqrt n rho sigma nstd).1
+    let h := (tauchenX sqrt n rho sigma nstd).2
+    (tauchen sqrt erfc n rho sigma mu nstd).1.get i j =
+      if j + 1 = n then 1 - Φ ((x.getD j 0 - rho * x.getD i 0 - h) / sigma)
+      else if j = 0 then Φ ((x.getD j 0 - rho * x.getD i 0 + h) / sigma)
+      else Φ ((x.getD j 0 - rho * x.getD i 0 + h) / sigma)
+            - Φ ((x.getD j 0 - rho * x.getD i 0 - h) / sigma) := by
+  intro Φ x h
+  rw [tauchen_fst]
+  unfold fillTauchen
+  rw [M.get_tab _ _ _ _ _ hi hj]
+  rfl
+
+/-- **Rows sum to exactly one** — for every `n ≥ 2`, all parameters, and whatever the external
+    `sqrt` and `erfc` return (pure telescoping on the evenly spaced grid). -/
+theorem tauchen_row_sums (sqrt erfc : K → K) (n : ℕ) (hn : 2 ≤ n) (rho sigma mu : K) (nstd : ℕ)
+    (i : ℕ) (hi : i < n) :
+    ∑ j ∈ range n, (tauchen sqrt erfc n rho sigma mu nstd).1.get i j = 1 := by
+  rw [tauchen_fst]
+  unfold fillTauchen
+  rw [sum_congr rfl (fun j hj => M.get_tab _ _ _ _ _ hi (mem_range.mp hj))]
+  exact tauchen_row_sum _ _ n hn rho sigma _ i (fun j hj => tauchenX_spacing sqrt n hn rho sigma nstd j hj)
+
+/-- **Entries are non-negative** when `erfc` is non-increasing with values in `[0,2]`,
+    the two square roots are non-negative resp. positive and `σ > 0`. -/
+theorem tauchen_nonneg (sqrt erfc : K → K) (n : ℕ) (hn : 2 ≤ n) (rho sigma mu : K) (nstd : ℕ)
+    (hs : 0 < sigma) (hsd : 0 ≤ ySd sqrt rho sigma) (hs2 : 0 < sqrt (1 + 1))
+    (hanti : Antitone erfc) (e0 : ∀ z, 0 ≤ erfc z) (e2 : ∀ z, erfc z ≤ 2)
+    (i j : ℕ) (hi : i < n) (hj : j < n) :
+    0 ≤ (tauchen sqrt erfc n rho sigma mu nstd).1.get i j := by
+  rw [tauchen_fst]
+  unfold fillTauchen
+  rw [M.get_tab _ _ _ _ _ hi hj]
+  obtain ⟨hm, h0, h1⟩ := stdNormCdf_props erfc (sqrt (1 + 1)) hs2 hanti e0 e2
+  apply tauchen_entry_nonneg _ hm h0 h1 _ n rho sigma _ _ hs
+  -- the half step is non-negative
+  have hc : (((n - 1 : ℕ)) : K) = (n : K) - 1 := by
+    rw [Nat.cast_sub (by omega)]; simp
+  have hpos : (0 : K) < (n : K) - 1 := by
+    have : (2 : K) ≤ (n : K) := by exact_mod_cast hn
+    linarith
+  unfold tauchenX
+  simp only [hc]
+  have hx : 0 ≤ (nstd : K) * ySd sqrt rho sigma := mul_nonneg (Nat.cast_nonneg _) hsd
+  apply mul_nonneg (by norm_num)
+  apply div_nonneg _ hpos.le
+  linarith
+
+/-- **Grid**: `n` evenly spaced points from `-n_std·s` to `n_std·s` (`s` the value returned for
+    `sqrt(σ²/(1-ρ²))`), shifted by `μ/(1-ρ)`. -/
+theorem tauchen_grid (sqrt erfc : K → K) (n : ℕ) (hn : 2 ≤ n) (rho sigma mu : K) (nstd : ℕ)
+    (j : ℕ) (hj : j < n) :
+    (tauchen sqrt erfc n rho sigma mu nstd).2.getD j 0 =
+      -((nstd : K) * ySd sqrt rho sigma)
+        + (j : K) * (2 * ((nstd : K) * ySd sqrt rho sigma) / ((n : K) - 1)) + mu / (1 - rho) := by
+  rw [tauchen_snd]
+  have hl : j < (tauchenX sqrt n rho sigma nstd).1.length := by
+    unfold tauchenX; simp only []; rw [linspace_length]; exact hj
+  rw [List.getD_eq_getElem?_getD, List.getElem?_map, List.getElem?_eq_getElem hl]
+  simp only [Option.map_some, Option.getD_some]
+  have h := linspace_getD (-((nstd : K) * ySd sqrt rho sigma)) ((nstd : K) * ySd sqrt rho sigma) n hn j hj
+  have e : (tauchenX sqrt n rho sigma nstd).1 =
+      linspace (-((nstd : K) * ySd sqrt rho sigma)) ((nstd : K) * ySd sqrt rho sigma) n := rfl
+  rw [List.getD_eq_getElem?_getD, List.getElem?_eq_getElem (by rw [linspace_length]; exact hj)] at h
+  simp only [Option.getD_some] at h
+  simp only [e]
+  rw [h]
+  ring
+
+/-- non-vacuity of the hypotheses of `tauchen_nonneg`: a step function is antitone with values
+    in `[0,2]` -/
+example : Antitone (fun z : ℚ => if z ≤ 0 then (2 : ℚ) else 0) ∧
+    (∀ z : ℚ, 0 ≤ (if z ≤ 0 then (2 : ℚ) else 0)) ∧ (∀ z : ℚ, (if z ≤ 0 then (2 : ℚ) else 0) ≤ 2) := by
+  refine ⟨?_, ?_, ?_⟩
+  · intro a b hab
+    by_cases hb : b ≤ 0
+    · have ha : a ≤ 0 := le_trans hab hb
+      simp [ha, hb]
+    · by_cases ha : a ≤ 0 <;> simp [ha, hb]
+  · intro z; split_ifs <;> norm_num
+  · intro z; split_ifs <;> norm_num
+
+/-- a concrete Tauchen matrix of the model (`n = 3`, `ρ = 1/2`, `σ = 1`, `n_std = 2`, `sqrt ≡ 1`,
+    `erfc` the step function): middle row `(0, 1, 0)` -/
+example : ((tauchen (fun _ : ℚ => 1) (fun z : ℚ => if z ≤ 0 then (2 : ℚ) else 0) 3 (1/2) 1 0 2).1.toRows.getD 1 [])
+    = [0, 1, 0] := by decide +kernel
+
+end tauchen
+
+/-! ## estimate_mc -/
+
+section est
+variable {β : Type} [LinearOrder β] {K : Type} [Field K] [CharZero K]
+
+/-- `_count_transition_frequencies` counts consecutive pairs (all index series). -/
+theorem count_transition_frequencies (idx : List ℕ) (a b : ℕ) :
+    countTransitions idx a b = (idx.zip idx.tail).countP (fun p => p = (a, b)) :=
+  countTransitions_spec idx a b
+
+omit [Field K] [CharZero K] in
+/-- **Inverse indices** (`np.unique(…, return_inverse=True)` as modelled): the index assigned to
+    observation `t` designates its value among the sorted distinct values. -/
+theorem estimate_mc_inverse (X : List β) (t : ℕ) (ht : t < X.length) :
+    (estimateCounts X).idx[t]? = some (indexIn (uniqueSorted X) X[t]) ∧
+    (uniqueSorted X)[indexIn (uniqueSorted X) X[t]]? = some X[t] := by
+  refine ⟨?_, getElem?_indexIn _ (uniqueSorted_pairwise X) _
+    ((mem_uniqueSorted X _).mpr (List.getElem_mem ht))⟩
+  rw [estimateCounts_idx, List.getElem?_map, List.getElem?_eq_getElem ht]
+  rfl
+
+/-- **estimate_mc.** If `estimate_mc(X)` returns `(S, P)` then `S` is the strictly increasing
+    list of the distinct observed values and, with `N a b` the number of transitions `a → b` in
+    `X` and `N_i = Σ_{b ∈ S} N S[i] b` the number of transitions out of `S[i]`: `N_i ≠ 0`,
+    `P[i][j] · N_i = N S[i] S[j]`, and every row of `P` has length `|S|` and sums to one. -/
+theorem estimate_mc_counts (X : List β) (S : List β) (P : List (List K))
+    (h : estimateMc X = some (S, P)) :
+    S = uniqueSorted X ∧ S.Pairwise (· < ·) ∧ (∀ b, b ∈ S ↔ b ∈ X) ∧ P.length = S.length ∧
+    ∀ i (hi : i < S.length),
+      (S.map (transCount X S[i])).sum ≠ 0 ∧ (P.getD i []).length = S.length ∧
+      (P.getD i []).sum = 1 ∧
+      ∀ j (hj : j < S.length),
+        (P.getD i []).getD j 0 * (((S.map (transCount X S[i])).sum : ℕ) : K)
+          = (transCount X S[i] S[j] : K) := by
+  unfold estimateMc at h
+  simp only [] at h
+  split at h
+  · simp at h
+  · rename_i P' hP
+    simp only [Option.some.injEq, Prod.mk.injEq] at h
+    obtain ⟨hS, rfl⟩ := h
+    rw [estimateCounts_states] at hS
+    subst hS
+    refine ⟨rfl, uniqueSorted_pairwise X, mem_uniqueSorted X, ?_⟩
+    -- the counter and the row totals as tabulated functions
+    have hP' : estimateP (α := K)
+        ((List.range (uniqueSorted X).length).map fun i =>
+          (List.range (uniqueSorted X).length).map fun j =>
+            countTransitions (X.map (indexIn (uniqueSorted X))) i j)
+        ((List.range (uniqueSorted X).length).map fun i =>
+          ((List.range (uniqueSorted X).length).map fun j =>
+            ((estimateCounts X).counts.getD i []).getD j 0).sum) = some P' := hP
+    have ht := estimateP_tab (K := K) (uniqueSorted X).length _ _ P' hP'
+    refine ⟨ht.1, ?_⟩
+    intro i hi
+    obtain ⟨hne, hlen, hent⟩ := ht.2 i hi
+    have htot := rowTotal_eq X i hi
+    simp only [htot] at hne hent
+    have hN : ((((uniqueSorted X).map (transCount X (uniqueSorted X)[i])).sum : ℕ) : K) ≠ 0 :=
+      Nat.cast_ne_zero.mpr hne
+    refine ⟨hne, hlen, ?_, ?_⟩
+    · -- row sum
+      rw [list_eq_map_range _ _ hlen _ hent, sum_map_div]
+      have hc : ((List.range (uniqueSorted X).length).map fun j =>
+          ((countTransitions (X.map (indexIn (uniqueSorted X))) i j : ℕ) : K)).sum
+          = ((((uniqueSorted X).map (transCount X (uniqueSorted X)[i])).sum : ℕ) : K) := by
+        rw [← htot, Nat.cast_list_sum, List.map_map]
+        congr 1
+        apply List.map_congr_left
+        intro j hj
+        simp only [Function.comp]
+        rw [estimateCounts_counts_getD X i j hi (List.mem_range.mp hj)]
+      rw [hc]
+      exact div_self hN
+    · intro j hj
+      rw [hent j hj]
+      have e := counts_getD_eq X i j hi hj
+      rw [estimateCounts_counts_getD X i j hi hj] at e
+      rw [e]
+      exact div_mul_cancel₀ _ hN
+
+omit [CharZero K] in
+/-- **When `estimate_mc` raises.** The `ValueError` (model: `none`) occurs exactly when some
+    observed value is never left; so on every series in which every occurring state is left at
+    least once, `estimate_mc` returns a chain (to which `estimate_mc_counts` applies). -/
+theorem estimate_mc_raises_iff (X : List β) :
+    estimateMc (α := K) X = none ↔ ∃ a ∈ X, ∀ b, transCount X a b = 0 :=
+  estimateMc_none_iff X
+
+omit [CharZero K] in
+theorem estimate_mc_defined (X : List β) (h : ∀ a ∈ X, ∃ b, transCount X a b ≠ 0) :
+    ∃ S P, estimateMc (α := K) X = some (S, P) := by
+  cases hm : estimateMc (α := K) X with
+  | none =>
+    obtain ⟨a, ha, hz⟩ := (estimateMc_none_iff X).mp hm
+    obtain ⟨b, hb⟩ := h a ha
+    exact absurd (hz b) hb
+  | some r => exact ⟨r.1, r.2, rfl⟩
+
+/-- non-vacuity: a series in which every occurring state is left at least once -/
+example : estimateMc (α := ℚ) ([1, 2, 1, 1, 3, 1] : List ℕ)
+    = some ([1, 2, 3], [[1/3, 1/3, 1/3], [1, 0, 0], [1, 0, 0]]) := by decide +kernel
+
+/-- a state that is never left (`3`, last observation): the `ValueError` of the validation -/
+example : estimateMc (α := ℚ) ([1, 2, 1, 3] : List ℕ) = none := by decide +kernel
+
+end est
+
+/-! ## fit_discrete_mc -/
+
+/-- **fit_discrete_mc is estimate_mc applied to the nearest-grid-point discretisation**, with
+    the visited product indices relabelled by the points of `cartesian(grids, order)`. -/
+theorem fit_is_estimate_of_nearest {K : Type} [NatCast K] [Div K] (X grids : List (List Rat))
+    (orderF : Bool) :
+    fitDiscreteMc (α := K) X grids orderF =
+      (estimateMc (α := K) (X.map fun x => QE.C16.nearestIndex grids x orderF)).map
+        (fun r => (r.1.map (fun k => (QE.C16.cartesian grids orderF).getD k []), r.2)) := by
+  unfold fitDiscreteMc nearestIndices
+  cases estimateMc (α := K) (X.map fun x => QE.C16.nearestIndex grids x orderF) <;> rfl
+
+
+/-- **What "nearest grid point" means, per dimension.** `fit_discrete_mc` discretises each
+    coordinate with `nearest1` (the model of `_cartesian_nearest_indices`) and encodes the
+    per-dimension indices in mixed radix (`cartesianIndex`, by definition of `nearestIndex`).
+    On a strictly increasing non-empty grid the per-dimension index is in range and designates
+    a grid point at minimal distance from the observation. (The decoding of the mixed-radix index
+    by `cartesian` is not proved here; it is compared exhaustively by the C16 correspondence.) -/
+theorem fit_nearest_per_dimension {K : Type} [Field K] [LinearOrder K] [IsStrictOrderedRing K]
+    (g : List K) (hg : g.Pairwise (· < ·)) (hne : 0 < g.length) (x : K) :
+    QE.C16.nearest1 g x < g.length ∧
+      ∀ j, j < g.length → |g.getD (QE.C16.nearest1 g x) 0 - x| ≤ |g.getD j 0 - x| :=
+  nearest1_spec g hg hne x
+
+/-- the product index is the mixed-radix code of the per-dimension nearest indices -/
+theorem fit_index_is_code (grids : List (List Rat)) (x : List Rat) :
+    QE.C16.nearestIndex grids x false =
+      QE.C16.cartesianIndex
+        ((List.range grids.length).map fun i => QE.C16.nearest1 (grids.getD i []) (x.getD i 0))
+        (grids.map List.length) ∧
+    QE.C16.nearestIndex grids x true =
+      QE.C16.cartesianIndex
+        ((List.range grids.length).map fun i => QE.C16.nearest1 (grids.getD i []) (x.getD i 0)).reverse
+        (grids.map List.length).reverse := ⟨rfl, rfl⟩
+
+/-- non-vacuity: grid `0, 1/2, 2`, observation `1` (nearer to `1/2`), midpoint tie `5/4 → 1/2` -/
+example : QE.C16.nearest1 ([0, 1/2, 2] : List ℚ) 1 = 1 ∧ QE.C16.nearest1 ([0, 1/2, 2] : List ℚ) (5/4) = 1
+    ∧ QE.C16.nearest1 ([0, 1/2, 2] : List ℚ) (3/2) = 2 := by decide +kernel
 
 end QE.C13
